@@ -14,7 +14,7 @@ def run(bid):
         os.makedirs(tmp + "/.out"); shutil.copy("/verif/known-findings.json", tmp + "/.out/")
         res = {}
         for c in CHECKS:
-            p = subprocess.run(["/verif/bin/verif", "check", c], env=dict(ENV, VERIF_REPO=tmp, VERIF_DIR=tmp + "/.out"), capture_output=True, text=True)
+            p = subprocess.run([os.environ.get("VERIF_BIN", "/verif/bin/verif"), "check", c], env=dict(ENV, VERIF_REPO=tmp, VERIF_DIR=tmp + "/.out"), capture_output=True, text=True)
             if p.returncode != 0:
                 res[c] = [l.strip()[:230] for l in p.stdout.splitlines() if l.startswith("  FINDING") or l.startswith("  UNDECIDED") or "BROKEN" in l][:4]
         return bid, res
@@ -23,7 +23,7 @@ def run(bid):
 ids = sorted(os.listdir("/verif/benign"))
 if len(sys.argv) > 1:
     ids = [i for i in ids if any(i.startswith(a) for a in sys.argv[1:])]
-with ThreadPoolExecutor(max_workers=5) as ex:
+with ThreadPoolExecutor(max_workers=int(os.environ.get("PAR", "5"))) as ex:
     out = list(ex.map(run, ids))
 bad = 0
 for bid, res in out:
